@@ -16,7 +16,7 @@ pub const FLOORS: &[&str] = &[
     "reset_after_eval_store", "reset_after_program_store", "reset_twice", "reset_then_full_run",
     "store_into_code", "store_into_stack_area", "memory_dirty_before_reset", "output:minimal", "output:decorated",
     "assembly_after_store_into_code", "resumed_under_debugger_after_reset", "reset_while_paused_on_breakpoint",
-    "resume_after_reset_compared_with_fresh_session",
+    "resume_after_reset_compared_with_fresh_session", "reset_after_unfinished_step_over_call",
 ];
 
 const FUEL: u64 = 15_000;
@@ -28,9 +28,106 @@ pub fn run(cfg: &Cfg, col: &mut Collector) {
     col.extra.push(("sessions".into(), J::I(n as i64)));
 }
 
+/// A `step` over a call that is cut short inside the subroutine, then `reset`: whatever the debugger
+/// remembered about the unfinished step must be gone. Every pause reached by the resuming commands
+/// after the reset is compared with the pause a fresh session reaches with the same commands.
+fn unfinished_step_case(i: u64, rng: &mut Rng) -> CaseOut {
+    let mut out = CaseOut::new();
+    let stack = rng.bool();
+    let (call, ret) = if stack && rng.bool() { ("call", "rets") } else { ("jsr", "ret") };
+    let text = format!(
+        "{c} sub\nadd r1 r1 #1\n{c} sub\nadd r1 r1 #2\nhalt\nsub add r2 r2 #1\nadd r2 r2 #1\n{r}\n",
+        c = call,
+        r = ret
+    );
+    let inside = 0x3005 + rng.below(3) as u16;
+    let mut bp_lines = vec![format!("break add x{:04x}", inside)];
+    let mut lines = bp_lines.clone();
+    lines.push("step".into()); // over the first call: stops at the breakpoint inside it
+    if rng.bool() {
+        let l = format!("break remove x{:04x}", inside);
+        bp_lines.push(l.clone());
+        lines.push(l);
+    }
+    if rng.chance(1, 3) {
+        lines.push("si 1".into());
+    }
+    lines.push(rng.s(&["reset", "z"]).to_string());
+    let reset_at = lines.len();
+    let mut resumes = Vec::new();
+    for _ in 0..1 + rng.below(3) {
+        resumes.push(match rng.below(4) {
+            0 => "step".to_string(),
+            1 => format!("si {}", 1 + rng.below(4)),
+            _ => "continue".to_string(),
+        });
+    }
+    lines.extend(resumes.iter().cloned());
+    lines.push("quit".into());
+    let mut fl = bp_lines.clone();
+    fl.extend(resumes.iter().cloned());
+    fl.push("quit".into());
+    let detail = || J::obj(vec![("source", J::s(&text)), ("script", J::A(lines.iter().map(J::s).collect())), ("fresh_script", J::A(fl.iter().map(J::s).collect())), ("stack_feature", J::B(stack))]);
+    let sess = match run_session(&text, stack, &lines.join("\n"), &[], 6 * FUEL, false) {
+        Ok(s) => s,
+        Err(o) => {
+            out.inconclusive = Some(format!("not assembled ({})", o.class()));
+            return out;
+        }
+    };
+    if let Err(a @ Abort::Panic { .. }) = &sess.obs.end {
+        out.violate(format!("C12/panic/{}", a.panic_file()), i, a.short(), detail());
+        return out;
+    }
+    let t = text.clone();
+    let fscript = fl.join("\n");
+    let fresh = std::thread::scope(|sc| {
+        std::thread::Builder::new().stack_size(8 << 20).spawn_scoped(sc, || run_session(&t, stack, &fscript, &[], 6 * FUEL, false).ok()).ok()?.join().ok()?
+    });
+    let Some(fresh) = fresh else {
+        out.inconclusive = Some("fresh session could not be run".into());
+        return out;
+    };
+    let Some(z) = sess.snaps.iter().find(|s| s.commands_read == reset_at) else { return out };
+    out.class("reset_after_unfinished_step_over_call");
+    out.class("resume_after_reset_compared_with_fresh_session");
+    out.class("reset_while_paused_on_breakpoint");
+    for k in 0..resumes.len() {
+        let a = sess.snaps.iter().find(|s| s.commands_read == reset_at + k + 1);
+        let f = fresh.snaps.iter().find(|s| s.commands_read == bp_lines.len() + k + 1);
+        match (a, f) {
+            (Some(a), Some(f)) => {
+                if a.pc != f.pc || a.reg != f.reg || a.cc != f.cc || a.fetches - z.fetches != f.fetches || a.mem_diff != f.mem_diff {
+                    out.violate(
+                        "C12/resume-after-reset",
+                        i,
+                        format!(
+                            "after `...; reset` and {:?}: paused at PC x{:04X} after {} instructions, registers {:04X?}; a fresh session pauses at PC x{:04X} after {} instructions, registers {:04X?}",
+                            &resumes[..=k], a.pc, a.fetches - z.fetches, a.reg, f.pc, f.fetches, f.reg
+                        ),
+                        detail(),
+                    );
+                    return out;
+                }
+            }
+            (None, None) => break,
+            _ => {
+                out.violate("C12/resume-after-reset", i, format!("after `...; reset` and {:?}: one session has ended, the fresh one has not (or the reverse)", &resumes[..=k]), detail());
+                return out;
+            }
+        }
+    }
+    out.evals = 1;
+    out.nontrivial = Some(hash_bytes(format!("{}|{:?}", text, lines).as_bytes()));
+    out
+}
+
 fn one_case(seed: u64, i: u64) -> CaseOut {
     let mut out = CaseOut::new();
     let mut rng = Rng::for_case(seed, "C12", i);
+    if rng.chance(1, 12) {
+        return unfinished_step_case(i, &mut rng);
+    }
     let stack = rng.bool();
     // this monitor compares machine state, not debugger text: half of the sessions use the
     // decorated output mode, whose `assembly`/`print` paths differ from the minimal ones
